@@ -76,6 +76,13 @@ impl Databases {
             StorageStrategy::S3 => S3Storage::load_all_dbs_from_cloud(dbs),
             StorageStrategy::S3Patition => S3PartitionStorage::load_all_dbs_from_cloud(dbs),
         }
+        // A database that was never snapshotted is gone now, an oplog that still refers to it
+        // cannot be used to catch other nodes (or this one) up: discard it as an invalid one
+        if dbs.is_oplog_valid.load(Ordering::SeqCst) && !oplog_refers_only_to_loaded_dbs(dbs) {
+            log::warn!("The op-log refers to databases that were not loaded, oplog files will be deleted!");
+            Oplog::clean_op_log_metadata_files();
+            dbs.is_oplog_valid.store(false, Ordering::SeqCst);
+        }
     }
 
     pub fn storage_data(db: &Database, db_name: &String, reclame_space: bool) -> u32 {
@@ -87,6 +94,30 @@ impl Databases {
             }
         }
     }
+}
+
+fn oplog_refers_only_to_loaded_dbs(dbs: &Arc<Databases>) -> bool {
+    let known_ids: Vec<u64> = dbs.id_name_db_map.read().unwrap().keys().cloned().collect();
+    let mut file_names = vec![Oplog::get_op_log_file_name()];
+    for entry in get_op_log_entries_by_creation_date() {
+        file_names.push(entry.path().to_str().unwrap().to_string());
+    }
+    for file_name in file_names {
+        if let Ok(file) = File::open(&file_name) {
+            let mut reader = std::io::BufReader::new(file);
+            let mut record = [0; OP_RECORD_SIZE];
+            while reader.read_exact(&mut record).is_ok() {
+                let mut db_id_buffer = [0; OP_DB_ID_SIZE];
+                db_id_buffer.copy_from_slice(
+                    &record[OP_TIME_SIZE + OP_KEY_SIZE..OP_TIME_SIZE + OP_KEY_SIZE + OP_DB_ID_SIZE],
+                );
+                if !known_ids.contains(&u64::from_le_bytes(db_id_buffer)) {
+                    return false;
+                }
+            }
+        }
+    }
+    true
 }
 
 pub struct Oplog {}
